@@ -20,7 +20,7 @@ CONSTANTS ExtMark,     \* U32 value of 0xFFFFFF
           CsPool,      \* chunk sizes announced by Set Chunk Size messages
           InitCs,      \* chunk size before any Set Chunk Size (128)
           ScsLen,      \* payload length of a Set Chunk Size message (4)
-          AggPool,     \* set of aggregate shapes: sequences of [type, len, dts]
+          AggPool,     \* set of aggregate shapes: sequences of [type, len, dts, sid]
           MaxMsgs,     \* bound on submitted messages
           ScsCsid      \* chunk stream id used for protocol control messages (2)
 
